@@ -323,17 +323,21 @@ def run_case(handle: ServerHandle, scripts: list[list[list[Any]]], rng: Any, tag
 
     def hand_over() -> None:
         """A slot was released: the real semaphore picks one of the queued connections."""
-        queued = [j for j in range(n) if phase[j] == "queued"]
-        if not queued or full():
-            return
-        if not g.wait_for(lambda: any(entered(clients[j]) for j in queued)):
-            raise Hang("a slot is free and connections are queued, but none entered serve()")
-        time.sleep(0)
-        with g.cond:
-            order = [k for (e, k) in g.events if e == "enter"]
-        firsts = sorted((j for j in queued if entered(clients[j])), key=lambda j: order.index(clients[j].key))
-        for j in firsts:
-            await_enter(j)
+        while True:
+            queued = [j for j in range(n) if phase[j] == "queued"]
+            if not queued:
+                return
+            with g.cond:
+                order = [k for (e, k) in g.events if e == "enter"]
+            firsts = sorted((j for j in queued if clients[j].key in order), key=lambda j: order.index(clients[j].key))
+            if firsts:
+                await_enter(firsts[0])
+                continue
+            if full():
+                return
+            # a slot is free (or being released right now) and nobody took it yet
+            if not g.wait_for(lambda: any(entered(clients[j]) for j in queued)):
+                raise Hang("a slot is free and connections are queued, but none entered serve()")
 
     try:
         while any(p != "done" for p in phase):
@@ -356,16 +360,16 @@ def run_case(handle: ServerHandle, scripts: list[list[list[Any]]], rng: Any, tag
                 c.proxy = RpcConnection(I.Interp, c.transport, on_log=c.rec.on_log).__enter__()
                 phase[i] = "queued"
                 log(i)
-                if not full():
-                    await_enter(i)
+                hand_over()
                 continue
             if phase[i] == "queued":
                 # all slots are taken: the connection waits.  Optionally its client already sends the next request.
-                if not full():
-                    hand_over()
-                    if phase[i] != "queued":
-                        continue
+                hand_over()
+                if phase[i] != "queued":
+                    continue
                 stutters += 1
+                if stutters > 200 * n:
+                    raise Hang(f"livelock: phases {phase}, gauge {sorted(map(str, g.active))}, events {g.events}, keys {[x.key for x in clients]}, fin {[x.finished() for x in clients]} idx {[x.idx for x in clients]}")
                 log(i)
                 if presend and not c.pending and not c.finished() and rng.random() < 0.5:
                     c.pending = True
